@@ -161,7 +161,8 @@ PLANS = {
     "C03": dict(mc=MC("mixed", "async", thorough=["t_async"], bounded=["t_mixed"]) + MCA("2p"), spec_replay=True, spec_l1l0=True, spec_l2l1=True, runs=[R("general", (400, 8000), (3, 6), None, True), R("sync", (150, 2000), (3, 6), None, True),
                       R("async", (150, 3000), (3, 6), None, True), R("timed", (150, 3000), (3, 6), None, True),
                       R("chain", (150, 3000), (2, 6), None, True), R("close", (200, 3000), (3, 6), None, True),
-                      R("pairsweep", (0, 0), (1, 1), None, True, programs_fn=freeze_sweep("pair", (30, 800), (40, 60), "pairsweep", victims=(0, 1), from_phase=3, solo=1))]),
+                      R("pairsweep", (0, 0), (1, 1), None, True, programs_fn=freeze_sweep("pair", (30, 800), (40, 60), "pairsweep", victims=(0, 1), from_phase=3, solo=1)),
+                      R("discrace", (0, 0), (1, 1), None, True, programs_fn=discrace_sweep(48, (40, 60), "discrace03"))]),
     "C05": dict(mc=MC("timed", "async", thorough=["t_async"], bounded=["t_timed"]) + MCA("2p"), spec_l1l0=True, runs=[R("general", (250, 4000), (3, 6), "C05", True), R("timed", (200, 3000), (3, 6), "C05", True),
                       R("async", (200, 3000), (3, 6), "C05", True), R("chain", (100, 2000), (2, 6), "C05", True),
                       R("discrace", (0, 0), (1, 1), "C05", True, programs_fn=discrace_sweep(16, (40, 60), "discrace05"))]),
